@@ -89,6 +89,9 @@ type c26Case struct {
 	// (entry i is a copy of entry i mod len with a different id / name); keeps
 	// cases with thousands of entries small.
 	Extra int `json:",omitempty"`
+	// Reuse says what happens to the byte slice that was handed to
+	// UnmarshalBinary before the decoded value is compared (see c26Reuse*).
+	Reuse string `json:",omitempty"`
 
 	// garbage
 	Data kit.Text `json:",omitempty"`
@@ -458,14 +461,14 @@ func c26Decode(codec string, data []byte) (d c26Decoded) {
 // discrepancies, a watchdog turns a hang into one, and the bytes allocated
 // while decoding are measured (TotalAlloc is monotonic, GC does not lower it;
 // nothing else runs in this process meanwhile).
-func c26Guarded(codec string, data []byte) (d c26Decoded, alloc uint64, disc *kit.Discrepancy) {
+func c26Guarded(codec string, data []byte) (d c26Decoded, in []byte, alloc uint64, disc *kit.Discrepancy) {
 	type result struct {
 		d     c26Decoded
 		alloc uint64
 		err   error
 	}
 	ch := make(chan result, 1)
-	in := append([]byte{}, data...)
+	in = append([]byte{}, data...)
 	go func() {
 		var res result
 		res.err = kit.Guard(func() error {
@@ -484,14 +487,15 @@ func c26Guarded(codec string, data []byte) (d c26Decoded, alloc uint64, disc *ki
 	case res := <-ch:
 		if res.err != nil {
 			dd, _ := res.err.(*kit.Discrepancy)
-			return res.d, 0, dd
+			return res.d, in, 0, dd
 		}
 		if !bytes.Equal(in, data) {
-			return res.d, res.alloc, kit.Fail("input-modified", "%s decoder modified its input", codec)
+			return res.d, in, res.alloc, kit.Fail("input-modified", "%s decoder modified its input", codec)
 		}
-		return res.d, res.alloc, nil
+		return res.d, in, res.alloc, nil
 	case <-timer.C:
-		return d, 0, kit.Fail("hang", "%s decoder still running after %s on %d input bytes", codec, c26Watchdog, len(data))
+		// the decoder goroutine still owns the buffer
+		return d, nil, 0, kit.Fail("hang", "%s decoder still running after %s on %d input bytes", codec, c26Watchdog, len(data))
 	}
 }
 
@@ -532,7 +536,7 @@ func c26CheckGarbage(codec string, data []byte, skipHeavyKnown bool) (outcome st
 			"%s: %s; decoder cost %d elements for %d input bytes; not executed because the class is a listed finding (it ends in fatal OOM, a makeslice panic or a practically endless loop)",
 			codec, scan.Detail, scan.Cost, len(data))
 	}
-	d, alloc, disc := c26Guarded(codec, data)
+	d, in, alloc, disc := c26Guarded(codec, data)
 	if disc == nil && alloc > c26AllocBound(len(data)) {
 		disc = kit.Fail("alloc", "%s decoder allocated %d bytes for %d input bytes (bound %d)", codec, alloc, len(data), c26AllocBound(len(data)))
 	}
@@ -546,84 +550,324 @@ func c26CheckGarbage(codec string, data []byte, skipHeavyKnown bool) (outcome st
 	if d.err != nil {
 		return "error", scan, nil
 	}
+	if disc := c26CheckDetached(codec, data, d, in); disc != nil {
+		return "discrepancy", scan, disc
+	}
 	return "value", scan, nil
+}
+
+// c26CheckDetached: a value decoded from accepted bytes does not alias them.
+// d was decoded from in (a copy of data that only the harness and the decoder
+// have seen). The same bytes are decoded once more from a fresh copy that is
+// left alone, in is overwritten, and the two values are compared by content.
+func c26CheckDetached(codec string, data []byte, d c26Decoded, in []byte) *kit.Discrepancy {
+	err := kit.Guard(func() error {
+		ref := c26Decode(codec, append([]byte{}, data...))
+		if ref.err != nil {
+			return nil // not this oracle's business
+		}
+		for i := range in {
+			in[i] ^= 0x5a
+		}
+		const where = "after the input buffer of UnmarshalBinary was overwritten, compared with a second decoding of the same bytes"
+		switch codec {
+		case c26ReposMap:
+			return c26CmpReposMap(where, ref.rm, d.rm)
+		case c26BranchesRepos:
+			return c26CmpBR(where, ref.br.List, d.br.List, true)
+		case c26FileNameSet:
+			return c26CmpSet(where, ref.fs.Set, d.fs.Set)
+		}
+		return nil
+	})
+	if err == nil {
+		return nil
+	}
+	disc, ok := err.(*kit.Discrepancy)
+	if !ok {
+		disc = kit.Fail("error", "%v", err)
+	}
+	disc.Kind = "aliases-input/" + disc.Kind
+	return disc
 }
 
 // ---------------------------------------------------------------- round trip oracle
 
-func c26CheckRoundTrip(c *c26Case) (n int, err error) {
+// c26Q quotes a string for a message, shortened when long.
+func c26Q(s string) string {
+	if len(s) > 80 {
+		return fmt.Sprintf("%q...(%d bytes)", s[:80], len(s))
+	}
+	return fmt.Sprintf("%q", s)
+}
+
+// Content comparison of the three value types. where says at which point of
+// the case the comparison is made (right after decoding, after the input
+// buffer was overwritten, ...).
+
+func c26CmpReposMap(where string, want, got zoekt.ReposMap) error {
+	if len(got) != len(want) {
+		return kit.Fail("roundtrip", "ReposMap %s: %d entries expected, %d decoded", where, len(want), len(got))
+	}
+	for id, w := range want {
+		g, ok := got[id]
+		if !ok {
+			return kit.Fail("roundtrip", "ReposMap %s: id %d lost", where, id)
+		}
+		if g.HasSymbols != w.HasSymbols || g.IndexTimeUnix != w.IndexTimeUnix || len(g.Branches) != len(w.Branches) {
+			return kit.Fail("roundtrip", "ReposMap[%d] %s: expected %+v decoded %+v", id, where, w, g)
+		}
+		for i := range w.Branches {
+			if g.Branches[i] != w.Branches[i] {
+				return kit.Fail("roundtrip", "ReposMap[%d].Branches[%d] %s: expected {%s %s} decoded {%s %s}", id, i, where, c26Q(w.Branches[i].Name), c26Q(w.Branches[i].Version), c26Q(g.Branches[i].Name), c26Q(g.Branches[i].Version))
+			}
+		}
+	}
+	return nil
+}
+
+// tolerant is for values decoded from arbitrary bytes: roaring accepts some
+// malformed containers, on which Equals is not obliged to work.
+func c26CmpBR(where string, want, got []query.BranchRepos, tolerant bool) error {
+	if len(got) != len(want) {
+		return kit.Fail("roundtrip", "BranchesRepos %s: %d entries expected, %d decoded", where, len(want), len(got))
+	}
+	for i := range want {
+		if got[i].Branch != want[i].Branch {
+			return kit.Fail("roundtrip", "BranchesRepos[%d].Branch %s: expected %s decoded %s", i, where, c26Q(want[i].Branch), c26Q(got[i].Branch))
+		}
+		if tolerant {
+			if (got[i].Repos == nil) != (want[i].Repos == nil) {
+				return kit.Fail("roundtrip", "BranchesRepos[%d].Repos %s: nil on one side only", i, where)
+			}
+			if want[i].Repos == nil {
+				continue
+			}
+			equal, panicked := true, false
+			func() {
+				defer func() {
+					if recover() != nil {
+						panicked = true
+					}
+				}()
+				equal = got[i].Repos.Equals(want[i].Repos)
+			}()
+			if !panicked && !equal {
+				return kit.Fail("roundtrip", "BranchesRepos[%d].Repos %s: bitmaps differ", i, where)
+			}
+			continue
+		}
+		if got[i].Repos == nil || !got[i].Repos.Equals(want[i].Repos) {
+			return kit.Fail("roundtrip", "BranchesRepos[%d].Repos %s: expected %v decoded %v", i, where, want[i].Repos, got[i].Repos)
+		}
+	}
+	return nil
+}
+
+func c26CmpSet(where string, want, got map[string]struct{}) error {
+	if len(got) != len(want) {
+		return kit.Fail("roundtrip", "FileNameSet %s: %d names expected, %d decoded", where, len(want), len(got))
+	}
+	// membership queries (what the set is for) ...
+	for k := range want {
+		if _, ok := got[k]; !ok {
+			return kit.Fail("roundtrip", "FileNameSet %s: name %s lost", where, c26Q(k))
+		}
+	}
+	// ... and the keys as stored
+	for k := range got {
+		if _, ok := want[k]; !ok {
+			return kit.Fail("roundtrip", "FileNameSet %s: decoded set holds %s, which was not encoded", where, c26Q(k))
+		}
+	}
+	return nil
+}
+
+// c26RT is one value of the case's codec: its size, its real encoder, and its
+// real decoder, which returns a comparison of the decoded value with the
+// original (callable any number of times, at different points of the case).
+type c26RT struct {
+	n      int
+	encode func() ([]byte, error)
+	decode func(data []byte) (cmp func(where string) error, err error)
+}
+
+func c26RoundTripper(c *c26Case) (c26RT, error) {
 	switch c.Codec {
 	case c26ReposMap:
 		want := c.reposMap()
-		enc, err := want.MarshalBinary()
-		if err != nil {
-			return 0, kit.Fail("encode-error", "ReposMap.MarshalBinary: %v", err)
-		}
-		var got zoekt.ReposMap
-		if err := got.UnmarshalBinary(enc); err != nil {
-			return 0, kit.Fail("decode-error", "ReposMap.UnmarshalBinary(valid encoding of %d entries, %d bytes): %v", len(want), len(enc), err)
-		}
-		if len(got) != len(want) {
-			return 0, kit.Fail("roundtrip", "ReposMap: %d entries encoded, %d decoded", len(want), len(got))
-		}
-		for id, w := range want {
-			g, ok := got[id]
-			if !ok {
-				return 0, kit.Fail("roundtrip", "ReposMap: id %d lost", id)
-			}
-			if g.HasSymbols != w.HasSymbols || g.IndexTimeUnix != w.IndexTimeUnix || len(g.Branches) != len(w.Branches) {
-				return 0, kit.Fail("roundtrip", "ReposMap[%d]: encoded %+v decoded %+v", id, w, g)
-			}
-			for i := range w.Branches {
-				if g.Branches[i] != w.Branches[i] {
-					return 0, kit.Fail("roundtrip", "ReposMap[%d].Branches[%d]: encoded %q decoded %q", id, i, w.Branches[i], g.Branches[i])
+		return c26RT{
+			n:      len(want),
+			encode: func() ([]byte, error) { return want.MarshalBinary() },
+			decode: func(data []byte) (func(string) error, error) {
+				var got zoekt.ReposMap
+				if err := got.UnmarshalBinary(data); err != nil {
+					return nil, err
 				}
-			}
-		}
-		return len(want), nil
+				return func(where string) error { return c26CmpReposMap(where, want, got) }, nil
+			},
+		}, nil
 	case c26BranchesRepos:
 		want := c.branchesRepos()
-		enc, err := query.BranchesRepos{List: want}.MarshalBinary()
-		if err != nil {
-			return 0, kit.Fail("encode-error", "BranchesRepos.MarshalBinary: %v", err)
-		}
-		var got query.BranchesRepos
-		if err := got.UnmarshalBinary(enc); err != nil {
-			return 0, kit.Fail("decode-error", "BranchesRepos.UnmarshalBinary(valid encoding of %d entries, %d bytes): %v", len(want), len(enc), err)
-		}
-		if len(got.List) != len(want) {
-			return 0, kit.Fail("roundtrip", "BranchesRepos: %d entries encoded, %d decoded", len(want), len(got.List))
-		}
-		for i := range want {
-			if got.List[i].Branch != want[i].Branch {
-				return 0, kit.Fail("roundtrip", "BranchesRepos[%d].Branch: encoded %q decoded %q", i, want[i].Branch, got.List[i].Branch)
-			}
-			if got.List[i].Repos == nil || !got.List[i].Repos.Equals(want[i].Repos) {
-				return 0, kit.Fail("roundtrip", "BranchesRepos[%d].Repos: encoded %v decoded %v", i, want[i].Repos, got.List[i].Repos)
-			}
-		}
-		return len(want), nil
+		return c26RT{
+			n:      len(want),
+			encode: func() ([]byte, error) { return query.BranchesRepos{List: want}.MarshalBinary() },
+			decode: func(data []byte) (func(string) error, error) {
+				var got query.BranchesRepos
+				if err := got.UnmarshalBinary(data); err != nil {
+					return nil, err
+				}
+				return func(where string) error { return c26CmpBR(where, want, got.List, false) }, nil
+			},
+		}, nil
 	case c26FileNameSet:
 		want := c.nameSet()
-		enc, err := (&query.FileNameSet{Set: want}).MarshalBinary()
-		if err != nil {
-			return 0, kit.Fail("encode-error", "FileNameSet.MarshalBinary: %v", err)
-		}
-		var got query.FileNameSet
-		if err := got.UnmarshalBinary(enc); err != nil {
-			return 0, kit.Fail("decode-error", "FileNameSet.UnmarshalBinary(valid encoding of %d names, %d bytes): %v", len(want), len(enc), err)
-		}
-		if len(got.Set) != len(want) {
-			return 0, kit.Fail("roundtrip", "FileNameSet: %d names encoded, %d decoded", len(want), len(got.Set))
-		}
-		for k := range want {
-			if _, ok := got.Set[k]; !ok {
-				return 0, kit.Fail("roundtrip", "FileNameSet: name %q lost", k)
-			}
-		}
-		return len(want), nil
+		return c26RT{
+			n:      len(want),
+			encode: func() ([]byte, error) { return (&query.FileNameSet{Set: want}).MarshalBinary() },
+			decode: func(data []byte) (func(string) error, error) {
+				var got query.FileNameSet
+				if err := got.UnmarshalBinary(data); err != nil {
+					return nil, err
+				}
+				return func(where string) error { return c26CmpSet(where, want, got.Set) }, nil
+			},
+		}, nil
 	}
-	return 0, fmt.Errorf("unknown codec %q", c.Codec)
+	return c26RT{}, fmt.Errorf("unknown codec %q", c.Codec)
+}
+
+// c26Twin derives the "second, different value" of the reuse mode "second":
+// same shape as the case's value (so that its encoding overlays the first
+// one's bytes closely), every string changed in every byte, ids shifted, one
+// entry dropped from the front when there are several.
+func c26Twin(c *c26Case) *c26Case {
+	flip := func(b kit.Text) kit.Text {
+		out := make(kit.Text, len(b))
+		for i, x := range b {
+			out[len(b)-1-i] = x ^ 0x15
+		}
+		return out
+	}
+	t := &c26Case{Mode: c.Mode, Codec: c.Codec, NilMap: false, Extra: c.Extra}
+	for i, r := range c.Repos {
+		if i == 0 && len(c.Repos) > 2 {
+			continue
+		}
+		nr := c26Repo{ID: r.ID + 1, HasSymbols: !r.HasSymbols, IndexTime: r.IndexTime ^ 0x55}
+		for _, b := range r.Branches {
+			nr.Branches = append(nr.Branches, c26Branch{Name: flip(b.Name), Version: flip(b.Version)})
+		}
+		t.Repos = append(t.Repos, nr)
+	}
+	for i, b := range c.BR {
+		if i == 0 && len(c.BR) > 2 {
+			continue
+		}
+		nb := c26BR{Branch: flip(b.Branch)}
+		for _, id := range b.IDs {
+			nb.IDs = append(nb.IDs, id+3)
+		}
+		for _, r := range b.Runs {
+			nb.Runs = append(nb.Runs, [2]uint32{r[0] + 7, r[1]})
+		}
+		t.BR = append(t.BR, nb)
+	}
+	for i, n := range c.Names {
+		if i == 0 && len(c.Names) > 2 {
+			continue
+		}
+		t.Names = append(t.Names, flip(n))
+	}
+	return t
+}
+
+// Reuse modes: what the caller does with the byte slice it handed to
+// UnmarshalBinary once that has returned. encoding.BinaryUnmarshaler only
+// lends the input ("UnmarshalBinary must copy the data if it wishes to retain
+// the data after returning"), so the decoded value has to stay equal to the
+// encoded one whatever happens to those bytes.
+const (
+	c26ReuseNone   = ""       // nothing: compared right after decoding only
+	c26ReuseZero   = "zero"   // input zeroed
+	c26ReuseFill   = "fill"   // input filled with 'x'
+	c26ReuseInvert = "invert" // every input byte inverted
+	c26ReuseSecond = "second" // a second, different value is decoded from the same frame buffer
+)
+
+var c26Reuses = []string{c26ReuseZero, c26ReuseFill, c26ReuseInvert, c26ReuseSecond}
+
+func c26CheckRoundTrip(c *c26Case) (n int, err error) {
+	rt, err := c26RoundTripper(c)
+	if err != nil {
+		return 0, err
+	}
+	enc, err := rt.encode()
+	if err != nil {
+		return 0, kit.Fail("encode-error", "%s MarshalBinary: %v", c.Codec, err)
+	}
+	var rt2 c26RT
+	var enc2 []byte
+	if c.Reuse == c26ReuseSecond {
+		if rt2, err = c26RoundTripper(c26Twin(c)); err != nil {
+			return 0, err
+		}
+		if enc2, err = rt2.encode(); err != nil {
+			return 0, kit.Fail("encode-error", "%s MarshalBinary (second value): %v", c.Codec, err)
+		}
+	}
+	// the caller's buffer: owned by the harness, never by the decoder
+	frame := make([]byte, max(len(enc), len(enc2)))
+	in := frame[:copy(frame, enc)]
+	cmp, err := rt.decode(in)
+	if err != nil {
+		return 0, kit.Fail("decode-error", "%s UnmarshalBinary(valid encoding of %d entries, %d bytes): %v", c.Codec, rt.n, len(enc), err)
+	}
+	if !bytes.Equal(in, enc) {
+		return 0, kit.Fail("input-modified", "%s decoder modified its input", c.Codec)
+	}
+	if err := cmp("right after decoding"); err != nil {
+		return 0, err
+	}
+	switch c.Reuse {
+	case c26ReuseNone:
+		return rt.n, nil
+	case c26ReuseZero:
+		clear(frame)
+	case c26ReuseFill:
+		for i := range frame {
+			frame[i] = 'x'
+		}
+	case c26ReuseInvert:
+		for i := range frame {
+			frame[i] ^= 0xff
+		}
+	case c26ReuseSecond:
+		in2 := frame[:copy(frame, enc2)]
+		cmp2, err := rt2.decode(in2)
+		if err != nil {
+			return 0, kit.Fail("decode-error", "%s UnmarshalBinary(valid encoding of %d entries, %d bytes, second value in a reused buffer): %v", c.Codec, rt2.n, len(enc2), err)
+		}
+		if err := cmp2("(second value decoded from the reused buffer) right after decoding"); err != nil {
+			return 0, err
+		}
+		if err := cmp("after a second value was decoded from the same, reused input buffer"); err != nil {
+			return 0, err
+		}
+		// and now the buffer goes back to the pool
+		for i := range frame {
+			frame[i] = byte(i)*31 + 7
+		}
+		if err := cmp2("(second value decoded from the reused buffer) after the caller overwrote the input buffer"); err != nil {
+			return 0, err
+		}
+	default:
+		return 0, fmt.Errorf("unknown reuse mode %q", c.Reuse)
+	}
+	if err := cmp("after the caller overwrote (" + c.Reuse + ") the input buffer it had passed to UnmarshalBinary"); err != nil {
+		return 0, err
+	}
+	return rt.n, nil
 }
 
 // ---------------------------------------------------------------- generators
@@ -784,6 +1028,11 @@ func c26GenCase(rt *rapid.T) c26Case {
 	if c26Pct(g, 45, "roundtrip") {
 		c.Mode = "roundtrip"
 		c26GenValue(g, &c, false)
+		// the caller's buffer is overwritten / reused in most cases; a few
+		// keep the plain encode-decode-compare shape
+		if !c26Pct(g, 10, "noreuse") {
+			c.Reuse = c26Pick(g, c26Reuses, "reuse")
+		}
 		return c
 	}
 	c.Mode = "garbage"
@@ -943,6 +1192,11 @@ func runC26(rec *kit.Recorder, c c26Case, skipHeavyKnown bool) error {
 			}
 		})
 		labels = append(labels, "rt-"+c26SizeLabel(n))
+		if c.Reuse == c26ReuseNone {
+			labels = append(labels, "rt-reuse:none")
+		} else {
+			labels = append(labels, "rt-reuse:"+c.Reuse)
+		}
 		if nonUTF8 {
 			labels = append(labels, "rt-non-utf8-string")
 		}
@@ -979,8 +1233,9 @@ func runC26(rec *kit.Recorder, c c26Case, skipHeavyKnown bool) error {
 
 func TestVerif_C26(t *testing.T) {
 	rec := kit.Open(t, "C26",
-		"rapid-generated cases of two modes over the three codecs (zoekt.ReposMap, query.BranchesRepos, query.FileNameSet) through MarshalBinary/UnmarshalBinary: roundtrip = a generated value (0-3000 entries, ids over the whole uint32 range, negative/extreme index times, empty/long/non-UTF-8 strings, array/bitmap/run roaring containers); garbage = random bytes (mostly with a valid version byte) or a deterministic reference encoding mutated by count inflation, length inflation, truncation, bit flips, splices, over-long varints. Non-trivial: roundtrip with >= 2 entries; garbage with a valid version byte. Distinct by hash of the JSON case",
+		"rapid-generated cases of two modes over the three codecs (zoekt.ReposMap, query.BranchesRepos, query.FileNameSet) through MarshalBinary/UnmarshalBinary: roundtrip = a generated value (0-3000 entries, ids over the whole uint32 range, negative/extreme index times, empty/long/non-UTF-8 strings, array/bitmap/run roaring containers) is encoded, decoded from a buffer owned by the harness and compared right after decoding and, in ~90% of the cases, again after the caller has reused that input buffer (zeroed it, filled it with 'x', inverted every byte, or decoded a second, different value of the same shape from the same frame buffer and then overwritten it once more; both values are compared); garbage = random bytes (mostly with a valid version byte) or a deterministic reference encoding mutated by count inflation, length inflation, truncation, bit flips, splices, over-long varints; every garbage input that a decoder accepts is decoded a second time from a fresh copy, the first input buffer is overwritten and the two decoded values must still be equal. Non-trivial: roundtrip with >= 2 entries; garbage with a valid version byte. Distinct by hash of the JSON case",
 		"equality is by content: a nil and an empty collection are the same value (ReposMap(nil) encodes to no bytes and decodes to nil; an entry without branches decodes to an empty slice)",
+		"the input of UnmarshalBinary is only lent to the decoder (encoding.BinaryUnmarshaler: 'UnmarshalBinary must copy the data if it wishes to retain the data after returning'): a decoded value that changes when the caller overwrites or reuses the input bytes is not equal to the encoded value; bitmaps decoded from arbitrary (not round-trip) bytes on which roaring's Equals panics are not compared",
 		"allocation bound for decoding n input bytes: 64*n + 1 MiB of runtime.MemStats.TotalAlloc growth, checked on inputs of at most 4096 bytes (counts that are legitimately <= the remaining bytes cost up to ~200 B of bookkeeping per element, which the 1 MiB slack absorbs up to that size); a decoder still running after 20 s is a hang",
 		"inputs of the class "+c26KnownLength+" (a declared count that is negative as int or larger than the remaining input) whose decoder cost exceeds 32768 elements are not executed when that finding is listed, because they end the process; all others are executed",
 	)
